@@ -421,18 +421,21 @@ GenVal(h, p) == IF h.genvals = <<>> THEN "" ELSE h.genvals[(p % Len(h.genvals)) 
 TrAttrs(h, p) == IF h.gen = 1 THEN << <<"class", GenVal(h, p)>> >> ELSE <<>>
 CellToks(name, txt) == << <<"open", name, <<>> >> >> \o (IF txt = "" THEN <<>> ELSE << <<"text", txt>> >>) \o << <<"close", name>> >>
 
+\* indices (1-based positions in the table, separators counted) of the non-separator rows
+BodyRowPositions(st, T) == SelectSeq([i \in 1..Len(T.rows) |-> i], LAMBDA i : ~st.row[T.rows[i]].sep)
+
 HtmlExpected(st, t, h) ==
   LET T == st.tbl[t]
-      pos(r) == st.row[r].pos
   IN << <<"open", "table", "TABLEATTRS">> >>
      \o (IF h.caption = "" THEN <<>> ELSE CellToks("caption", h.caption))
      \o << <<"open", "thead", <<>> >>, <<"open", "tr", TrAttrs(h, 0)>> >>
      \o Flatten([i \in 1..Len(T.hdr) |-> CellToks("th", T.hdr[i].txt)])
      \o << <<"close", "tr">>, <<"close", "thead">>, <<"open", "tbody", <<>> >> >>
-     \o Flatten(SeqMap(LAMBDA r : << <<"open", "tr", TrAttrs(h, pos(r))>> >>
+     \o Flatten(SeqMap(LAMBDA p : LET r == T.rows[p] IN
+                                   << <<"open", "tr", TrAttrs(h, p)>> >>
                                    \o Flatten([i \in 1..Len(st.row[r].cells) |-> CellToks("td", st.row[r].cells[i].txt)])
                                    \o << <<"close", "tr">> >>,
-                       BodyRowIds(st, T)))
+                       BodyRowPositions(st, T)))
      \o << <<"close", "tbody">>, <<"close", "table">> >>
 
 TableAttrSet(h) == (IF h.class = "" THEN {} ELSE {<<"class", h.class>>}) \cup (IF h.id = "" THEN {} ELSE {<<"id", h.id>>})
@@ -447,7 +450,7 @@ HtmlBad(st, t, h, res) ==
              IF k = 1 THEN ~(Len(toks[1]) = 3 /\ toks[1][1] = "open" /\ toks[1][2] = "table"
                              /\ Range(toks[1][3]) = TableAttrSet(h) /\ Len(toks[1][3]) = Cardinality(TableAttrSet(h)))
              ELSE toks[k] # exp[k]}}
-          \cup (IF h.gen = 1 /\ res.gencalls # (<<0>> \o SeqMap(LAMBDA r : st.row[r].pos, BodyRowIds(st, T)))
+          \cup (IF h.gen = 1 /\ res.gencalls # (<<0>> \o BodyRowPositions(st, T))
                 THEN {<<"generator calls">>} ELSE {})
 
 -----------------------------------------------------------------------------
